@@ -100,6 +100,7 @@ fn main() {
         "rt" => { let v = unhex(&args[2]); match bounded::rt_check(&v) { Some(d) => { println!("DISAGREE {}", d); std::process::exit(1); } None => println!("AGREE round trip of b\"{}\"", esc(&v)) } }
         "inv" => { let v = unhex(&args[2]); match bounded::inv_replay(&v) { Some(d) => { println!("DISAGREE {}", d); std::process::exit(1); } None => println!("AGREE") } }
         "mut" => { let v = unhex(&args[2]); match bounded::mut_replay(&v) { Some(d) => { println!("DISAGREE {}", d); std::process::exit(1); } None => println!("AGREE") } }
+        "matches" => { let v = unhex(&args[2]); match bounded::matches_replay(&v) { Some(d) => { println!("DISAGREE {}", d); std::process::exit(1); } None => println!("AGREE") } }
         "fromparts" => { let v = unhex(&args[2]); match bounded::fromparts_replay(&v) { Some(d) => { println!("DISAGREE {}", d); std::process::exit(1); } None => println!("AGREE") } }
         "lsr" => {
             // real maximize / minimize / character_direction on raw integer forms ("-" = absent); prints raw results
